@@ -1,6 +1,7 @@
 package props
 
 import (
+	"sync/atomic"
 	"bytes"
 	"context"
 	"encoding/base64"
@@ -592,6 +593,21 @@ func (f *c12Fix) ops() []c12Op {
 			}
 			return "ok:" + h.Sha([]byte(sb.String())), nil
 		}},
+		{"thrift.Node.not-found-held", func(d *c12Descs) (string, []byte) {
+			// an error result is a result: the text of a miss is held while other lookups (here and in the other
+			// goroutines) miss other things, and is read again afterwards
+			n := generic.NewNode(thrift.STRUCT, f.tb)
+			a := n.Field(31999)
+			first := a.Error()
+			k := atomic.AddInt64(&c12MissSeq, 1)
+			n.Field(thrift.FieldID(20000 + k%5000))
+			n.GetByPath(generic.NewPathFieldId(thrift.FieldID(25000 + k%5000)))
+			generic.NewNode(thrift.MAP, []byte{11, 8, 0, 0, 0, 0}).GetByStr(fmt.Sprintf("missing-%d", k))
+			if again := a.Error(); again != first {
+				return "held-miss-text-changed:" + again, nil
+			}
+			return "ok:" + first, nil
+		}},
 		{"thrift.Value.GetMany", func(d *c12Descs) (string, []byte) {
 			var sb strings.Builder
 			val := generic.NewValue(d.t, f.tb)
@@ -629,6 +645,8 @@ func (f *c12Fix) ops() []c12Op {
 	}
 	return ops
 }
+
+var c12MissSeq int64
 
 const c12BigBytesProto = `syntax = "proto3";
 package verif;
